@@ -128,8 +128,28 @@ Theorem C19_concat_rename : forall q sg,
   q_concat_name_table q = false -> cc_sigma_ok sg -> forall file,
   q_concat_global_names q = false -> q_concat_dedup_by_name q = false ->
   concat_reports q (renameF sg file) = map (renameR sg) (concat_reports q file).
-Proof. exact concat_rename. Qed.
+Proof. intros q sg H. exact (concat_rename q sg (or_introl H)). Qed.
 Print Assumptions C19_concat_rename.
+
+(* confinement of the name-table quirk (partial: the full statement is C19_concat_rename): with the table in use,
+   renaming still commutes for every renaming that moves no name into or out of the table *)
+Theorem C19_concat_rename_partial : forall q sg,
+  (forall x, smem (lower (sg x)) sc_patterns = smem (lower x) sc_patterns) -> cc_sigma_ok sg -> forall file,
+  q_concat_global_names q = false -> q_concat_dedup_by_name q = false ->
+  concat_reports q (renameF sg file) = map (renameR sg) (concat_reports q file).
+Proof. intros q sg H. exact (concat_rename q sg (or_intror H)). Qed.
+Print Assumptions C19_concat_rename_partial.
+
+(* confinement of the global-name-set quirk (partial: the full statement is C19_concat_local_ordered): with the name
+   sets taken from the whole file, the law still holds for every context that assigns no variable and wraps in no loop *)
+Theorem C19_concat_global_names_partial : forall q c frag,
+  q_concat_global_names q = true -> q_concat_dedup_by_name q = false -> ctx_assigns_nothing c = true ->
+  concat_reports q (plug c frag) =
+  ctx_pre (cl_step q) (cl_emit q) c (classify_allF frag)
+  ++ shiftRs (off_l c) (off_c c) (concat_reports q frag)
+  ++ ctx_post (cl_step q) (cl_emit q) c (classify_allF frag).
+Proof. exact concat_global_names_partial. Qed.
+Print Assumptions C19_concat_global_names_partial.
 
 (* ---------------------------------------------------------------- non-vacuity *)
 (* the documented violating example of docs/performance-linter.md, inside a method of a class, after a closed
